@@ -269,9 +269,12 @@ func genC14(r *Run) {
 			entry = eServer6
 		}
 		cnt := r.Rng.Intn(r.Pick(4, 12, 40, 200))
-		allValid := i < 4 // 200 decodable datagrams whose handlers are all still running when the last one is read
+		allValid := i < 4 // 200 (then 1500) decodable datagrams whose handlers are all still running when the last one is read
 		if allValid {
 			cnt = 200
+			if i >= 2 {
+				cnt = 1500 // well past any plausible fixed pool of workers or slots
+			}
 		}
 		malformedRun := i >= 4 && i < 8 // a long run of malformed nested relays, then ordinary traffic
 		if malformedRun {
